@@ -196,7 +196,7 @@ def fails(impl, model, case):
     return obs != m or (oracle is not None and oracle != "ok")
 
 
-def shrink(impl, model, case, budget=250):
+def shrink(impl, model, case, budget=400):
     threads, hist = case.split(" ", 1)
     toks = hist.split(";")
     n = 0
@@ -213,7 +213,7 @@ def shrink(impl, model, case, budget=250):
                     progress = True
                     continue
             i += chunk
-        if not progress or chunk == 1:
+        if not progress:
             chunk //= 2
     return f"{threads} {';'.join(toks)}"
 
